@@ -20,3 +20,4 @@ import FpgoVerif.Props.C11
 #print axioms FpgoVerif.C11.C11_derive_independent
 #print axioms FpgoVerif.C11.C11_subscribe_split
 #print axioms FpgoVerif.C11.C11_gated_delivery
+#print axioms FpgoVerif.C11.C11_just_of_monad
